@@ -114,26 +114,48 @@ func PubKeyToAddr(addressID int32, pubKey []byte) string {
 	return d.PubKeyToAddr(pubKey)
 }
 
+// checkAddressKey cache key of CheckAddress: the result depends on the address
+// and on which drivers are enabled at the block height (bit i = driver id i)
+type checkAddressKey struct {
+	addr    string
+	enabled uint8
+}
+
 // CheckAddress check address validity
 // blockHeight is used for enable check, pass -1 if there is no block height context
+//
+// drivers are tried in ascending id order; if no enabled driver accepts the address,
+// the error of the enabled driver with the lowest id is returned
 func CheckAddress(addr string, blockHeight int64) (e error) {
 
-	if value, ok := checkAddressCache.Get(addr); ok {
+	var enabled [MaxID + 1]*DriverInfo
+	key := checkAddressKey{addr: addr}
+	for id, d := range drivers {
+		if isEnable(blockHeight, d.enableHeight) {
+			enabled[id] = d
+			key.enabled |= 1 << uint(id)
+		}
+	}
+	if value, ok := checkAddressCache.Get(key); ok {
 		if value != nil {
 			return value.(error)
 		}
 		return nil
 	}
-	for _, d := range drivers {
-		if !isEnable(blockHeight, d.enableHeight) {
+	for _, d := range enabled {
+		if d == nil {
 			continue
 		}
-		e = d.driver.ValidateAddr(addr)
-		if e == nil {
+		err := d.driver.ValidateAddr(addr)
+		if err == nil {
+			e = nil
 			break
 		}
+		if e == nil {
+			e = err
+		}
 	}
-	checkAddressCache.Add(addr, e)
+	checkAddressCache.Add(key, e)
 	return e
 }
 
